@@ -1,4 +1,11 @@
 from _common import *
+import cvlib
+# The event-queue groups run cmb_event.c over the CONTRACT STUB of the hashheap; the groups that establish that
+# contract on the real cmi_hashheap.c (C02.L3.*, listed with also=C01) therefore count for C01 in full: a hashheap
+# that breaks its contract breaks the assumption every C01.O2 / O3 obligation was proved under.
+if not hasattr(cvlib, 'FULL_GROUPS'):
+    cvlib.FULL_GROUPS = {}
+cvlib.FULL_GROUPS['C01'] = [r'C02\.L3\..*']
 GROUPS = [
     order_group('C01', 'C01.O1.event_order', 'ORDER_EVENT', 'heap_order_check', 'src/cmb_event.c', also=['C02']),
 ]
